@@ -217,7 +217,7 @@ def r08f(ctx):
     """
     from ..paths import cfg_of, node_of
     repo = ctx.repo
-    ctx.rule("R08f", "Table.traverse: the y stamped on each expanded row is its position (complete producer from row 0, counter from the matching constant, range tests on the counter)", floor=5)
+    ctx.rule("R08f", "Table.traverse: the y stamped on each expanded row is its position (complete producer from row 0, counter from the matching constant, range tests on the counter; one fresh copy per row)", floor=7)
     f = repo.func("Table.traverse")
     where = f"{f.file}:{f.ident}"
     loops = [n for n in walk_no_nested(f.node) if isinstance(n, ast.For) and any(isinstance(x, ast.Yield) for x in ast.walk(n))]
@@ -286,6 +286,22 @@ def r08f(ctx):
         if not unrep:
             full, why = False, f"`{norm(x, 30)}` yields one item for a row that may be repeated"
     gparams = [a.arg for a in g.node.args.args[1:] + g.node.args.kwonlyargs]
+    # every copy handed out is its own object: what is yielded is cloned on the way from the head of the loop that yields it
+    for x in [y_ for y_ in ast.walk(ol) if isinstance(y_, ast.Yield)]:
+        lp = [i for i in inner if x in list(ast.walk(i))]
+        scope_loop = lp[0] if lp else ol
+        v = x.value
+        fresh_here = isinstance(v, ast.Attribute) and v.attr == "clone"
+        if not fresh_here and isinstance(v, ast.Name):
+            clones = [node_of(gcfg, a_) for a_ in ast.walk(scope_loop) if isinstance(a_, ast.Assign) and isinstance(a_.targets[0], ast.Name) and a_.targets[0].id == v.id
+                      and isinstance(a_.value, ast.Attribute) and a_.value.attr == "clone"]
+            first_in = node_of(gcfg, scope_loop.body[0])
+            fresh_here = bool(clones) and gcfg.path_avoiding(first_in, node_of(gcfg, x), clones, follow_exc=False) is None
+        ctx.instance("R08f", f"{g.file}:{g.ident}", f"`{norm(x, 30)}`: a copy made within the iteration that yields it", ok=fresh_here, nontrivial=True, line=x.lineno)
+        if not fresh_here:
+            ctx.report("R08f", g, x, f"`{norm(x, 30)}` yields an object cloned outside the loop that yields it",
+                       f"Table.{pname} hands out the same object for several logical rows of a run: the rows returned are aliases of one another, so editing one "
+                       f"(or stamping its y) changes the others, and what is pushed back with set_row is not what was read")
     complete = skip is None and full
     ctx.instance("R08f", f"{g.file}:{g.ident}", f"producer yields `repeated or 1` copies of every XML row, from the first row on (skip path: {skip is not None}; {why or 'full expansion'})",
                  ok=complete or (skip is not None and full), nontrivial=True, line=ol.lineno)
@@ -350,6 +366,8 @@ from ..selftest import Seed, unparse_seed  # noqa: E402
 _T = "src/odfdo/table.py"
 _R = "src/odfdo/row.py"
 SEEDS = [
+    Seed("row producer clones a repeated row once for the whole run", "fault", _T, '                for _ in range(row.repeated):\n                    row_copy = row.clone\n                    row_copy.repeated = None\n                    yield row_copy\n', '                row_copy = row.clone\n                row_copy.repeated = None\n                for _ in range(row.repeated):\n                    yield row_copy\n', "R08f"),
+    Seed("row producer: copy renamed", "neutral", _T, '                for _ in range(row.repeated):\n                    row_copy = row.clone\n                    row_copy.repeated = None\n                    yield row_copy\n', '                for _ in range(row.repeated):\n                    one = row.clone\n                    one.repeated = None\n                    yield one\n'),
     Seed("Table.traverse counts from 0 though it advances before stamping", "fault", _T, '        y = -1\n        for row in self._yield_odf_rows():\n            y += 1\n            if y < start:\n                continue\n            if y > end:\n                return\n            row.y = y\n            yield row\n', '        y = 0\n        for row in self._yield_odf_rows():\n            y += 1\n            if y < start:\n                continue\n            if y > end:\n                return\n            row.y = y\n            yield row\n', "R08f"),
     Seed("Table.traverse no longer passes over the rows before start", "fault", _T, '        y = -1\n        for row in self._yield_odf_rows():\n            y += 1\n            if y < start:\n                continue\n            if y > end:\n                return\n            row.y = y\n            yield row\n', '        y = -1\n        for row in self._yield_odf_rows():\n            y += 1\n            if y > end:\n                return\n            row.y = y\n            yield row\n', "R08f"),
     Seed("Table.traverse stops one row early", "fault", _T, '        y = -1\n        for row in self._yield_odf_rows():\n            y += 1\n            if y < start:\n                continue\n            if y > end:\n                return\n            row.y = y\n            yield row\n', '        y = -1\n        for row in self._yield_odf_rows():\n            y += 1\n            if y < start:\n                continue\n            if y >= end:\n                return\n            row.y = y\n            yield row\n', "R08f"),
